@@ -174,7 +174,7 @@ func init() {
 	core.Register(&core.Prop{
 		ID: "C04", Level: "exploration",
 		Rule: "inputs, in fixed case ranges: (1) EVERY single schema fault (null, 5 wrong types, empty, absent, duplicated, oversized, negative number, object nested into itself) at EVERY JSON path of four hand-written representative documents (full-featured SPDX 2.3, CycloneDX 1.4, 1.5, nested components with duplicate/missing refs); " +
-			"(2) double faults: PRNG-chosen pairs (quick 20 000; thorough 1.2 M); (3) byte-prefix truncations of the representative documents (quick every 7th, thorough every one); (4) random bytes, JSON token soups and texts of the tag-value family (tags with empty, blank, wrapped, foreign or truncated values, mixed line endings); " +
+			"(2) double faults: PRNG-chosen pairs (quick 20 000; thorough 1.2 M); (3) byte-prefix truncations of the representative documents (quick every 7th, thorough every one); (4b) the full product of top-level sections being absent, null, empty, holding a null or empty entry, or minimal (2230 skeleton documents); (4) random bytes, JSON token soups and texts of the tag-value family (tags with empty, blank, wrapped, foreign or truncated values, mixed line endings); " +
 			"(5) nesting of arrays/objects/components to depth 10 000; (6) size series k=4,8,16,20,24,32 for every array path and for component nesting. " +
 			"Every input goes through SniffReader, ParseStream, ParseStreamWithOptions for each of the 7 registered formats and each registered parser called directly, inside a supervised child: recover() catches panics, the parent attributes a dead child to the logged case, " +
 			"the return-shape predicate (document XOR error; metadata and node list present) is checked, and the cost monitor (bytes allocated + CPU time, never wall time) flags local growth exponents above 3.5 on two consecutive size steps. " +
@@ -182,12 +182,13 @@ func init() {
 		Assumptions: []string{"'all byte strings' is sampled; the systematic part is the single/double fault space of the representative documents", "polynomial time is decided on allocation and CPU-time growth exponents, with a 10 CPU-second / 6 GB per-input watchdog (re-run alone with 10x margin before a hang is reported)"},
 		NCases: func(tier string) int {
 			a, b, cc, d, e, f := c04Counts(tier)
-			return a + b + cc + d + e + f
+			return a + b + cc + d + e + f + c04SkeletonN
 		},
 		Case:    c04Case,
 		CaseCPU: 10,
 		ExhaustiveSubspaces: func(tier string) []string {
-			out := []string{"every single schema fault (12 kinds) at every JSON path of the four representative documents"}
+			out := []string{"every single schema fault (12 kinds) at every JSON path of the four representative documents",
+				"every combination of the top-level sections of a document being absent, null, empty, holding a null or an empty entry, or minimal (CycloneDX: 3 versions x 7 metadata x 6 components x 5 dependencies; SPDX: 5 packages x 4 files x 5 relationships x 4 documentDescribes x 4 creationInfo)"}
 			if tier == "thorough" {
 				out = append(out, "every byte-prefix truncation of the representative documents")
 			}
@@ -196,10 +197,49 @@ func init() {
 	})
 }
 
+// Skeleton documents: every combination of the top-level sections being absent, null, empty, holding a null or an
+// empty entry, or minimal. Faults at two or three sections at once (an empty components array AND no main component)
+// are all in this product, which the sampled double faults reach only by luck.
+var (
+	c04SkelCDXMeta = []string{"", `"metadata":null,`, `"metadata":{},`, `"metadata":{"component":null},`, `"metadata":{"component":{}},`,
+		`"metadata":{"component":{"bom-ref":"r","type":"application","name":"r"}},`, `"metadata":{"component":{"bom-ref":"r","type":"application","name":"r","components":[]}},`}
+	c04SkelCDXComps = []string{"", `"components":null,`, `"components":[],`, `"components":[null],`, `"components":[{}],`, `"components":[{"bom-ref":"a","type":"library","name":"a","components":[]}],`}
+	c04SkelCDXDeps  = []string{"", `"dependencies":null,`, `"dependencies":[],`, `"dependencies":[null],`, `"dependencies":[{"ref":"a","dependsOn":[]}],`}
+	c04SkelCDXVers  = []string{"1.5", "1.4", "1.3"}
+	c04SkelPk       = []string{"", `"packages":null,`, `"packages":[],`, `"packages":[null],`, `"packages":[{"SPDXID":"SPDXRef-a","name":"a"}],`}
+	c04SkelFl       = []string{"", `"files":null,`, `"files":[],`, `"files":[{"SPDXID":"SPDXRef-f","fileName":"f"}],`}
+	c04SkelRel      = []string{"", `"relationships":null,`, `"relationships":[],`, `"relationships":[null],`, `"relationships":[{"spdxElementId":"SPDXRef-DOCUMENT","relationshipType":"DESCRIBES","relatedSpdxElement":"SPDXRef-a"}],`}
+	c04SkelDD       = []string{"", `"documentDescribes":null,`, `"documentDescribes":[],`, `"documentDescribes":["SPDXRef-a"],`}
+	c04SkelCI       = []string{"", `"creationInfo":null,`, `"creationInfo":{},`, `"creationInfo":{"creators":[],"created":""},`}
+	c04SkelCDXN     = len(c04SkelCDXVers) * len(c04SkelCDXMeta) * len(c04SkelCDXComps) * len(c04SkelCDXDeps)
+	c04SkeletonN    = c04SkelCDXN + len(c04SkelPk)*len(c04SkelFl)*len(c04SkelRel)*len(c04SkelDD)*len(c04SkelCI)
+)
+
+func c04Skeleton(i int) ([]byte, string) {
+	pick := func(xs []string) string { x := xs[i%len(xs)]; i /= len(xs); return x }
+	if i < c04SkelCDXN {
+		v, m, cm, d := pick(c04SkelCDXVers), pick(c04SkelCDXMeta), pick(c04SkelCDXComps), pick(c04SkelCDXDeps)
+		return []byte(`{"bomFormat":"CycloneDX","specVersion":"` + v + `",` + m + cm + d + `"version":1}`), "CycloneDX " + v + " skeleton: " + m + cm + d
+	}
+	i -= c04SkelCDXN
+	pk, fl, rel, dd, ci := pick(c04SkelPk), pick(c04SkelFl), pick(c04SkelRel), pick(c04SkelDD), pick(c04SkelCI)
+	return []byte(`{"spdxVersion":"SPDX-2.3","SPDXID":"SPDXRef-DOCUMENT",` + pk + fl + rel + dd + ci + `"name":"x"}`), "SPDX skeleton: " + pk + fl + rel + dd + ci
+}
+
 func c04Case(c *core.C) {
 	c04Init()
 	singles, doubles, trunc, soups, nest, series := c04Counts(c.Tier)
 	k := c.K
+	if base := singles + doubles + trunc + soups + nest + series; k >= base {
+		in, label := c04Skeleton(k - base)
+		c.Cover("skeleton-documents")
+		c.DistinctBytes(in)
+		if c.WantSample() && (k-base)%97 == 0 {
+			c.Sample(map[string]any{"kind": "skeleton", "input": string(in)})
+		}
+		c04Exercise(c, in, label)
+		return
+	}
 	enc := func(v *jsonx.Value) []byte { return jsonx.Encode(v, jsonx.EncOpts{Indent: -1}) }
 	switch {
 	case k < singles:
